@@ -200,7 +200,10 @@ def node_lookups(nch: int, bound: bool) -> None:
     hlib.enter(locals())
     kind, op = hlib.PARAM["kind"], hlib.PARAM["op"]
     node, stubs = build(kind, op, [], [NTok(True)] * 4, nch, -1, value=7)
-    rs = RecScoped({'x': (lambda *a: 0) if kind == 'CallOp' else 5} if bound else {})
+    nm = hlib.PARAM.get("name", 'x')
+    if hasattr(node, 'name'):
+        node.name = nm
+    rs = RecScoped({nm: (lambda *a: 0) if kind == 'CallOp' else 5} if bound else {})
     st = VMState(names=rs, max_ops_evaluated=10**6)
     try:
         r = node.eval(st)
@@ -208,7 +211,7 @@ def node_lookups(nch: int, bound: bool) -> None:
             r(1, 2)
     except Exception:
         pass
-    allowed = {'x'} if any(f.name == 'name' for f in dataclasses.fields(node)) else set()
+    allowed = {nm} if any(f.name == 'name' for f in dataclasses.fields(node)) else set()
     for k in rs.asked:
         assert k in allowed, "node kind %s looks up / binds a name that is not its own name field" % kind
     if kind == 'LambdaOp':
@@ -237,6 +240,9 @@ TEMPLATES = [
     "# c1 c2\n'c3' + \"c4\" + r'c5' + %c6.c7% + c8",
     "True and None or False or nm",
     "m | map(v => v + k1) | filter(w => w > k2)",
+    "%not bound% + 1",
+    "%un.bound f%(1)",
+    "%un bound% += 1",
 ]
 if isinstance(hlib.PARAM, dict) and "t" in hlib.PARAM:
     prewarm(TEMPLATES[hlib.PARAM["t"]])
